@@ -79,7 +79,7 @@ theorem writeObjectL_map_normD (d : Bool) (kt vt : Ty) (kvs : List (GoVal × GoV
     simpa [writeObjectL, sprintR] using h
 
 /-- the element step of `writeChunksList` is `writeChunksL` (which follows a chain of drops itself) -/
-theorem writeChunksList_cons' (x : GoVal) (xs : List GoVal) :
+theorem writeChunksList_consL (x : GoVal) (xs : List GoVal) :
     writeChunksList (x :: xs) = (writeChunksL x).bind fun a => (writeChunksList xs).bind fun b => .ok (a ++ b) := by
   cases x with
   | ptr w => cases w <;> simp only [writeChunksList, writeChunksL_ptr_drop]
@@ -108,7 +108,7 @@ theorem writeChunksL_norm (d : Bool) : ∀ v : GoVal, writeChunksL (v.norm d) = 
 theorem writeChunksList_norm (d : Bool) : ∀ xs : List GoVal, writeChunksList (normList d xs) = writeChunksList xs
   | [] => rfl
   | x :: xs => by
-    rw [normList, writeChunksList_cons', writeChunksList_cons', writeChunksL_norm d x, writeChunksList_norm d xs]
+    rw [normList, writeChunksList_consL, writeChunksList_consL, writeChunksL_norm d x, writeChunksList_norm d xs]
 end
 
 theorem stdChunks_norm (d : Bool) (v : GoVal) : stdChunks (v.norm d) = stdChunks v := by
